@@ -512,6 +512,9 @@ func init() {
 				wideCover("softnest", fam.SoftNest, rec, false, 120, 1),
 				wideCover("groups", fam.Groups, rec, false, 80, 0),
 				randCover("soft-rand", tweak(small, func(f *fam.Features) { groupy(f); f.PSoft = 0.6 }), rec, 80, 500, 0),
+				// a soft consumer next to every pair of decorators: no scope decorates the group unless a
+				// Decorate was accepted
+				structCover("decpairs", fam.DecPairs, rec, false, 75, 0, 2, 0),
 			},
 			traces: stdTraces("soft", tweak(medium, func(f *fam.Features) { groupy(f); f.PSoft = 0.6 }), 0, stdOpts)})})
 
@@ -531,7 +534,7 @@ func init() {
 				wideCover("groups", fam.Groups, rec, false, 100, 0),
 				randCover("dec-rand", tweak(small, decy), rec, 40, 400, 0),
 				// one decorator per key and scope: every pair of decorators meeting in a scope
-				structCover("decpairs", fam.DecPairs, rec, false, 48, 0, 2, 0),
+				structCover("decpairs", fam.DecPairs, rec, false, 75, 0, 2, 0),
 			},
 			traces: stdTraces("dec", tweak(medium, decy), 0, stdOpts)})})
 
@@ -591,7 +594,7 @@ func init() {
 				structCover("groups", fam.Groups, deferBoth, false, 10, 40, 2, 0),
 				digraphCover("digraphs-grp", "grp", deferBoth, 60, 800),
 				// two decorators arriving in either order: the same one is refused, or none
-				structCover("decpairs", fam.DecPairs, deferBoth, false, 48, 0, 2, 0),
+				structCover("decpairs", fam.DecPairs, deferBoth, false, 75, 0, 2, 0),
 			},
 			traces: pairTraces("orders", tweak(medium, func(f *fam.Features) { f.PInvalid = 0.5 }), deferBoth, []string{"perm", "perm", "scope-early", "scope-late", "defer"}, 25, 300),
 			extra: func(rep *Report, def *propDef) {
